@@ -409,11 +409,31 @@ def gen_gram(rng, tier):
             # the Toeplitz gram uses the exact non-uniform DFT kernel: compare at the accuracy of the default Kaiser-Bessel kernel
             c.pop('kbwidth', None), c.pop('numpoints', None), c.pop('os', None)
             out.append(c)
+    # ".gram always equals A^H A": every operator class (a class may define its own fused rule), directly and through the scalar / composition rules
+    classes = [k for k in opzoo.GENERATORS if k not in ('CartesianSamplingOp',)]
+    for i in range(2 * len(classes) if tier == 'quick' else 20 * len(classes)):
+        c = opzoo.GENERATORS[classes[i % len(classes)]](rng)
+        c['via'] = ['direct', 'scaled', 'composed'][i % 3]
+        out.append(c)
+    # fixed: several axes of which one is padded and a later one cropped (and the converse), for ZeroPadOp and FastFourierOp
+    for shape, new in (([6, 10], [8, 8]), ([5, 3], [3, 6]), ([2, 7, 4], [4, 7, 2]), ([4, 6], [6, 6])):
+        axes = list(range(len(shape)))
+        for via in ('direct', 'scaled', 'composed'):
+            if prod_(shape) <= 64:
+                out.append({'cls': 'ZeroPadOp', 'shape': shape, 'axes': axes, 'dims': [a - len(shape) for a in axes], 'new': new, 'via': via})
+                out.append({'cls': 'FastFourierOp', 'shape': shape, 'axes': axes, 'dims': [a - len(shape) for a in axes], 'recon': shape, 'enc': new, 'via': via})
     return out
 
 
+def prod_(l):
+    r = 1
+    for v in l:
+        r *= v
+    return r
+
+
 def impl_gram(c):
-    if c['cls'] == 'CartesianSamplingOp':
+    if c['cls'] != 'FourierOp':
         op, in_shape = opzoo.build(c)
     else:
         from mrpro.data import SpatialDimension
@@ -421,12 +441,20 @@ def impl_gram(c):
         from props import C03
         op = C03.build_fourier(c)
         in_shape = [1, 1, *c['recon']]
+    dt = torch.complex128 if c['cls'] in ('CartesianSamplingOp', 'FourierOp') else opzoo.dtype_of(c)
+    if c.get('via') == 'scaled':         # (s A).gram = |s|^2 A^H A through the rule of the scaling class
+        op = (2 - 1j) * op if dt.is_complex else 3.0 * op
+    elif c.get('via') == 'composed':     # (A D).gram = D^H A.gram D through the rule of the composition class
+        from mrpro.operators import EinsumOp
+        d = torch.arange(1, in_shape[-1] + 1).to(dt)
+        op = op @ EinsumOp(d, '... i, ... i -> ... i')
     g = op.gram
     n = opzoo.prod(in_shape)
     worst, scale = 0.0, 1.0
     gen = torch.Generator().manual_seed(5)
     for _ in range(3):
         x = (torch.randint(-3, 4, in_shape, generator=gen) + 1j * torch.randint(-3, 4, in_shape, generator=gen)).to(torch.complex128)
+        x = x.to(dt) if dt.is_complex else x.real.to(dt)
         (a,) = g(x)
         (b,) = op.adjoint(*op(x))
         (ah,) = g.adjoint(x)
@@ -439,6 +467,8 @@ def oracle_gram(c, o):
     if 'raises' in o:
         return None if o['raises'] == 'NotImplementedError' else f'{c["cls"]}.gram raised {o["raises"]}: {o.get("msg")}'
     tol = 1e-2 if o['nufft'] else 1e-10  # Toeplitz NUFFT gram: measured up to 1.1e-3 on small images
+    if c['cls'] in ('SliceProjectionOp', 'GridSamplingOp', 'WaveletOp', 'PCACompressionOp', 'FastFourierOp'):
+        tol = 2e-5 if c['cls'] == 'SliceProjectionOp' else 1e-9
     if o['dev'] > tol:
         return f'{c["cls"]}.gram differs from A^H A (relative deviation {o["dev"]:.3g})'
     return None
@@ -553,7 +583,7 @@ FAMILIES = [
     Family('expr_tree', gen_trees, impl_tree, coq_tree, PREAMBLE, cmp_tree, oracle_tree, nontrivial=lambda c: _size(c['tree']) >= 2,
            descr=descr_tree, shard=50, theorem='C04_sound, C04_gram'),
     Family('operator_matrix', gen_matrix, impl_matrix, None, '', None, oracle_matrix, descr=lambda c: {'op': c['op']}, theorem='C04_stacking'),
-    Family('special_gram', gen_gram, impl_gram, None, '', None, oracle_gram, descr=lambda c: {'cls': c['cls']}, theorem='C04_cartesian_gram'),
+    Family('special_gram', gen_gram, impl_gram, None, '', None, oracle_gram, descr=lambda c: {'cls': c['cls'], 'via': c.get('via', 'direct')}, theorem='C04_cartesian_gram, C04_gram'),
     Family('reuse_history', gen_reuse, impl_reuse, None, '', None, oracle_reuse, descr=lambda c: {'how': c['how']},
            theorem='C04_tree_semantics (expressions denote matrices: a sub-expression keeps its value whatever is built from it)'),
 ]
